@@ -521,7 +521,7 @@ class Check(CheckBase):
             "..639) x ragged tail {0,100} with the real constants and 1..63 x tail 0..6 with tiny ones, each under a fixed "
             "probe program (size, whole content, reads across the first / middle / last sector boundaries); seven real-size stacks (40 raw sectors read with single requests of 32..80 KiB, bare and under a window; 20 000-byte "
             "reversed window, 25 000-byte offset window, 6 x 8192 chained file, the Roland shape reversed-over-window-over-4 x 9216 "
-            "chained file, 12 raw sectors) probed with LONG reads (4096..20 000 bytes and to the end: several internal buffers, two and "
+            "chained file, 12 raw sectors) probed with runs of SMALL consecutive reads across every multiple of 4096 and of the sector size, and with LONG reads (4096..20 000 bytes and to the end: several internal buffers, two and "
             "more whole sectors inside one read) from 7 start positions; 27 configurations of TWO "
             "views over one shared parent, over two parents with different bytes at the same addresses, or one over the other (two windows, wrapper + window, two chained files of one partition window, the same file "
             "twice, two nested sample stacks, reversed + forward window over one chained file, two windows over one raw-sector view): "
@@ -788,6 +788,14 @@ class Check(CheckBase):
         for o in starts:
             for n in sizes:
                 prog += [["seek", o, 0], ["read", n]]
+        # SMALL consecutive reads that walk across the internal 4096-byte buffer size and across sector ends (fields of a
+        # few bytes read one after the other, the way headers and tables are parsed)
+        for edge in sorted({4096, 8192, 12288, s_, 2 * s_}):
+            if edge + 16 >= L:
+                continue
+            for back in (2, 4, 6, 10):
+                for n in ((2, 4) if width == 2 else (1, 3, 5)):
+                    prog += [["seek", 0, 0], ["read", n], ["seek", edge - back, 0]] + [["read", n]] * 6
         cfg = {"kind": "long:" + kind, "s": s_}
         model = RefFile(content, width)
         for i, op in enumerate(prog):
